@@ -38,6 +38,50 @@ def run_rule(ck, prog, rule="REPR", fields=("f62",)):
     return total
 
 
+_E5B = {}
+
+
+def e5b_in_range(prog, fld, g, lo, hi):
+    """Second opinion of the exact-linear-form engine (E5b) on one function: with every element parameter in [lo, hi] and every integer
+    parameter arbitrary, is every BaseElement the function (private callees of the module spliced in) constructs on any path in [lo, hi]?
+    True only when the engine followed every path; anything it does not model gives False (the interval analysis' alarm stands)."""
+    key = (fld, g.id)
+    if key in _E5B:
+        return _E5B[key]
+    from ..linint import LinInterp, Undecided, IV, ty_rng
+    mod = f"{FM}{fld}::"
+    be = mod + "BaseElement"
+    res = False
+    try:
+        li = LinInterp(prog, 1 << 200, lambda c: c.kind != "closure" and (c.nname.startswith(mod) or c.nname.startswith("<" + mod)), max_states=2000)
+        env0 = {}
+        ok = True
+        for i, ty in enumerate(g.get("inputs") or []):
+            nm = f"x{i}"
+            t = ty.replace("mut ", "")
+            if t in (be, "Self"):
+                li.atom(nm, lo, hi)
+                env0[i + 1] = ("adt", 0, [IV({nm: 1}, lo, hi)])
+            elif t in ("&" + be, "&Self"):
+                li.atom(nm, lo, hi)
+                env0["@" + nm] = ("adt", 0, [IV({nm: 1}, lo, hi)])
+                env0[i + 1] = ("ref", "@" + nm, ())
+            elif ty_rng(t) is not None:
+                r = ty_rng(t)
+                li.atom(nm, r[0], r[1])
+                env0[i + 1] = IV({nm: 1}, r[0], r[1])
+            else:
+                ok = False
+        if ok:
+            outs = li.run(g, env0)
+            built = [c for c in li.constructed if c[0] == be]
+            res = bool(outs) and bool(built) and not any(imp for _, imp in outs) and all(lo <= c[1] and c[2] <= hi for c in built)
+    except Undecided:
+        res = False
+    _E5B[key] = res
+    return res
+
+
 def run_field(ck, prog, rule, fld):
     sp = spec(prog, fld)
     mod = f"{FM}{fld}::"
@@ -58,6 +102,7 @@ def run_field(ck, prog, rule, fld):
     for c in sp["contracts"]:
         prog.fn(c)  # the assumed functions must exist (fail closed on a rename)
     seen = set()
+    e5b_ok = set()
     for f in roots:
         args = []
         for ty in f.get("inputs") or []:
@@ -66,6 +111,9 @@ def run_field(ck, prog, rule, fld):
         s = an.analyze(f, args)
         for a in s.alarms:
             if a.what != "Invariant":
+                continue
+            if e5b_in_range(prog, fld, a.fn, lo, hi) or (a.fn.id != f.id and e5b_in_range(prog, fld, f, lo, hi)):
+                e5b_ok.add(a.fn.nname if e5b_in_range(prog, fld, a.fn, lo, hi) else f.nname)   # carry logic the interval domain cannot follow, decided by the linear-form domain
                 continue
             key = f"{fld}:{f.nname}"
             if key in seen:
@@ -80,6 +128,10 @@ def run_field(ck, prog, rule, fld):
             n += 1
             ck.ob(rule, f"{fld}:safe:" + k.split("/Invariant:")[0], True,
                   f"every BaseElement constructed in {k.split('/Invariant:')[0]} holds a value in {sp['what']} for all inputs", loc=loc)
+    for g in sorted(e5b_ok):
+        n += 1
+        ck.ob(rule, f"{fld}:safe-e5b:" + g, True,
+              f"every BaseElement constructed in {g} holds a value in {sp['what']} for all inputs (decided path by path in the exact linear-form domain, E5b)")
     for f in an.analysed_fns:
         ck.saw(f)
     if sp["contracts"]:
